@@ -76,4 +76,6 @@ class Context(object):
             raise RuntimeError("no target at %r" % ((self.connected[0], self.targetname, lun),))
         status, sense = tgt.command(task.cdb, dataout, datain, "iscsi")
         task.status = status
+        if datain is not None and len(datain) and tgt.log and "transferred" in tgt.log[-1]:
+            task.residual = len(datain) - tgt.log[-1]["transferred"]
         task.raw_sense = sense            # None when the target supplied no sense data
